@@ -66,6 +66,8 @@ finding(
     {"C06": [I([["q", {"typ": "Literal['aqaaw']", "doc": "alpha."}]])]},
 )
 
+finding("P45", ["C10"], "fixed", "gen with --prepend leaks the prepended imports into cdd.compound.gen's globals: `import json as path` makes every later gen call in the process raise AttributeError", "a892f8f")
+
 # ------------------------------------------------------------------ open
 finding("P9", ["C12"], "open", "sync leaves function and argparse targets that differ from the truth untouched ('unchanged'); Class.method targets get a new top-level def appended on every run; a missing function file raises TypeError (repair would break 4 pinned test_conformance tests)")
 finding("P12", ["C01"], "open", "string default '' is emitted as 'Defaults to' and lost; string defaults containing '.' are truncated")
@@ -136,6 +138,22 @@ W.append(("P13", "C04", I([["b", {"typ": "bool", "doc": "the b"}]], cells=[[5, "
 # ---- C06 witnesses
 W.append(("P5", "C06", I([["a", {"typ": "int", "doc": "the a"}]], doc="")))
 W.append(("P15", "C06", I([["d", {"typ": "Literal['x', 'yy']", "doc": "the d", "default": "x"}]])))
+
+# ---- C18 witnesses
+W.append(("P3", "C18", {"kind": "single", "modules": ["cdd.sqlalchemy.parse"]}))
+W.append(("P3", "C18", {"kind": "single", "modules": ["cdd.compound.gen"]}))
+W.append(("P4", "C18", {"kind": "single", "modules": ["cdd.sqlalchemy.utils.emit_utils"]}))
+W.append(("P4", "C18", {"kind": "pair", "modules": ["cdd.compound.openapi.gen_openapi", "cdd.sqlalchemy.utils.shared_utils"]}))
+
+# ---- C10 witnesses (two (script, seed) pairs whose digests for (api,key) must agree)
+_FN = "def f(alpha, beta, gamma, delta, epsilon, zeta, eta, theta):\n    \"\"\"\n    Does.\n\n    :param gamma: g\n    :param alpha: a\n    \"\"\"\n    return 1\n"
+_ONE = {"name": "one", "calls": [["function_parse", "w"]]}
+W.append(("P2", "C10", {"inputs": {"w": {"src": _FN}}, "scripts": [_ONE, _ONE], "seeds": [0, 1], "api": "function_parse", "key": "w"}))
+W.append(("P2", "C10", {"inputs": {"w": {"src": _FN}}, "scripts": [_ONE, _ONE], "seeds": [2, 3], "api": "function_parse", "key": "w"}))
+_CLS = "class Foo(object):\n    \"\"\"\n    Hdr.\n\n    :cvar a: the a\n    \"\"\"\n    a: int = 5\n"
+_G = {"src": _CLS, "emit": "class", "parse": "class", "infer": False}
+_L = dict(_G, prepend="import json as path\n")
+W.append(("P45", "C10", {"inputs": {"g": _G, "leak": _L}, "scripts": [{"name": "plain", "calls": [["gen", "g"]]}, {"name": "leak-first", "calls": [["gen", "leak"], ["gen", "g"]]}], "seeds": [0, 0], "api": "gen", "key": "g"}))
 
 
 def main():
